@@ -6,7 +6,7 @@ E2 : the property evaluated on get_solution() of every exported model class (edg
 import collections
 import networkx as nx
 import common, gen, gen2, zoo, props, lpdump, e1, vcheck
-import gencheck01
+import gencheck01, gencheck_enc
 
 LEVEL = "proof"
 EXPLANATION = ("Props/C01.v: (i) Aug: the augmented graph attaches the synthetic source exactly to in-degree-0 nodes and additional "
@@ -246,4 +246,4 @@ def run(ctx):
     e2_all(ctx, ctx.budget(240, 6000))
     e2_greedy_bound(ctx, ctx.budget(80, 2000))
     VB.flush()
-    gencheck01.run_generated_c01(ctx)      # generated-model tie: augmentation and DAG decoder (coq/gen_proofs)
+    gencheck01.run_generated_c01(ctx); gencheck_enc.run_generated_kpc(ctx)      # generated-model tie: augmentation, DAG decoder, kPathCover encoder (coq/gen_proofs)
